@@ -40,20 +40,29 @@ Definition row_assign (leaves : list label) (i : N) : dict bool :=
   combine leaves (map (N.testbit i) (nrange (N.of_nat (length leaves)))).
 
 (* ---- side conditions of the pattern simulation (hypotheses of the truth-table theorem) ----
-   eval_pattern reads exactly one operand of a NOT gate and the first two operands of the ten
-   binary types; it has no case for the other types. *)
-Definition pattern_arity (t : gtype) : option nat :=
+   eval_pattern reads exactly one operand of a NOT gate, the first two operands of the four
+   comparison types, and all (at least two) operands of the six n-ary types; it has no case
+   for the other eight types. *)
+Definition pattern_supported (t : gtype) : bool :=
   match t with
-  | NOT => Some 1%nat
-  | AND | NAND | OR | NOR | XOR | NXOR | GEQ | LT | LEQ | GT => Some 2%nat
-  | _ => None
+  | NOT | AND | NAND | OR | NOR | XOR | NXOR | GEQ | LT | LEQ | GT => true
+  | _ => false
   end.
 
-Definition arity_okb (g : gate) : bool :=
-  match pattern_arity (gtyp g) with
-  | Some k => Nat.eqb k (length (gops g))
-  | None => false
+(* fewer operands than this raise IndexError *)
+Definition pattern_min_operands (t : gtype) : nat :=
+  match t with NOT => 1 | _ => 2 end.
+
+(* k operands are exactly what eval_pattern reads for type t *)
+Definition pattern_arity_ok (t : gtype) (k : nat) : bool :=
+  match t with
+  | NOT => Nat.eqb k 1
+  | GEQ | LT | LEQ | GT => Nat.eqb k 2
+  | AND | NAND | OR | NOR | XOR | NXOR => Nat.leb 2 k
+  | _ => false
   end.
+
+Definition arity_okb (g : gate) : bool := pattern_arity_ok (gtyp g) (length (gops g)).
 
 (* nodes is a topological order of a cone over leaves: every non-leaf node has a gate of a
    supported type with the operand count eval_pattern reads, and each of its operands is a
